@@ -97,6 +97,13 @@ class CaseAPI:
     def prove(self, clause, f, **info):
         self.ctx.prove(f"{self.case_id}:{clause}", f, info)
 
+    def instantiate_facts(self, index_tuples):
+        """instantiate the universally valid facts recorded by any()/all() reductions at the given index tuples"""
+        for natoms, fact in self.ctx.ghost.get("forall_facts", []):
+            for idx in index_tuples:
+                if len(idx) == natoms:
+                    self.ctx.assume(fact(idx))
+
     def cover(self, label):
         self.covers.add(label)
         self.ctx.ghost.setdefault("covers", set()).add(label)
